@@ -25,6 +25,7 @@ RULE = ("case = (n, failure mask, flavour, weight-vector id) with all windows an
         "or one sampled configuration; non-trivial if at least one realization succeeded; sub-evaluations in monitor_counters.sort.calls")
 ASSUMPTIONS = ["failed realizations reach filters as all-NaN rows",
                "out-of-range windows may be rejected with ConfigError or a pydantic ValidationError, but before any evaluator call"]
+CASE_TIMEOUT = 900     # one exhaustive case with seven surviving realizations enumerates 5040 orders x 28 windows
 BOUNDS = {"quick": {"exhaustive_n": 5, "sampled_n_max": 25}, "thorough": {"exhaustive_n": 7, "sampled_n_max": 40}}
 REQUIRED = {"quick": {"sort.calls": 20000, "sort.too_few_expected": 200, "sort.window_rejected": 50, "sort.e2e_rows": 300, "__nontrivial__": 100},
             "thorough": {"sort.calls": 1000000, "sort.too_few_expected": 5000, "sort.window_rejected": 500, "sort.e2e_rows": 5000, "__nontrivial__": 1000}}
